@@ -172,7 +172,7 @@ Qed.
 Theorem Lifecycle_close_idempotent : forall s, lc_inv s = true -> lc_closed s ->
   Lifecycle_exec s LcClose = Some s /\
   Lifecycle_observe1 s LcClose s = [lc_close_snapshot LcCloseRetained s] /\
-  lc_close_snapshot LcCloseRetained s = LcObsCloseRet LcCloseRetained 0 0 0 false.
+  lc_close_snapshot LcCloseRetained s = LcObsCloseRet LcCloseRetained true 0 0 0 false.
 Proof.
   intros s Hi Hc.
   destruct (Lifecycle_close_clean_state s Hi Hc) as (G & K & L & N & St & D).
@@ -251,7 +251,7 @@ Definition api_opening (p : lc_api_pc) : bool :=
 
 (** what the monitor knows, related to the state of the model *)
 Definition lc_rel (m : lc_mon) (s : Lifecycle_state) : bool :=
-  lm_ok m &&
+  lm_ok m && negb (lm_unknown m) &&
   imp (api_idle (lc_api s)) (biff (lm_open m) (negb (lc_is_none (lc_sup s)) && negb (lc_shutdown s))) &&
   imp (api_opening (lc_api s)) (negb (lm_open m)) &&
   imp (lm_closed m) (api_idle (lc_api s) && lc_shutdown s).
@@ -260,7 +260,7 @@ Lemma lc_rel_step : forall s a s' m, lc_inv s = true -> lc_rel m s = true ->
   Lifecycle_exec s a = Some s' ->
   lc_rel (fold_left lc_mon_step (Lifecycle_observe1 s a s') m) s' = true.
 Proof.
-  intros s a s' m Hi Hr Hex. destruct m as [mo mc mk].
+  intros s a s' m Hi Hr Hex. destruct m as [mo mu mc mk].
   lc_destruct_state s.
   lc_open_inv Hi. lc_enum_facts.
   unfold lc_rel, api_opening, biff, imp in Hr; cbn in Hr.
